@@ -412,8 +412,17 @@ def run_pcuse(case, drv):
     ref = {frozenset((a, b)) for a in names for b in adj[a]}
     try:
         with np.errstate(all="ignore"):
-            skel, _ = PC(df).estimate(variant=variant, ci_test="power_divergence", lambda_=lam, significance_level=alpha,
-                                      return_type="skeleton", show_progress=False, n_jobs=1, max_cond_vars=n)
+            est = PC(df)
+            if len(case["rows"]) % 2:
+                # the estimator object has been used before with OTHER test parameters: each run uses the parameters it is given
+                try:
+                    est.estimate(variant=variant, ci_test="power_divergence", lambda_="pearson" if lam != "pearson" else "neyman",
+                                 significance_level=0.3 if alpha < 0.3 else 1e-4, return_type="skeleton", show_progress=False, n_jobs=1,
+                                 max_cond_vars=n)
+                except Exception:
+                    pass
+            skel, _ = est.estimate(variant=variant, ci_test="power_divergence", lambda_=lam, significance_level=alpha,
+                                   return_type="skeleton", show_progress=False, n_jobs=1, max_cond_vars=n)
     except Exception as e:
         return fail(f"PC(variant={variant}, power_divergence, lambda_={lam!r}) raised {type(e).__name__}: {e}", **tags)
     got = {frozenset(e) for e in skel.edges()}
